@@ -48,6 +48,7 @@ var runners = map[string]runner{
 	"C12": func(t TB, p *Program) { RunC12(t, p) },
 	"C18": func(t TB, p *Program) { RunC18(t, p) },
 	"C05": func(t TB, p *Program) { RunC05(t, p) },
+	"C06": func(t TB, p *Program) { RunC06(t, p) },
 }
 
 func replayProgram(t TB, p *Program) {
